@@ -87,6 +87,7 @@ def run(ctx):
             allow[(fk, "skip")] = "skip(1): elements 1.. are compared with element 0 (scheme consistency; validated by E4.scheme)"
             allow[(fk, "windows")] = "windows(2): adjacent pairs compared (scheme consistency; validated by E4.scheme)"
         F.check_no_dropping_adapters(ctx, "E7.adapters", P, [fk], allow=allow)
+    F.check_combiner_lengths(ctx, "E4.len-range", P)
     # tables keyed by a share identifier cover the whole identifier range (1..=255)
     from .common import reachable_fns
 
